@@ -104,6 +104,10 @@ SHORT = {
     ),
     "lambda_in_class": "class L:\n    v = 2\n    w = (lambda y=v: y * 2)()\nprint(L.w)\n",
     "relative_imports": "from . import sibling\nfrom .. import parent as P\nfrom .pkg.mod import name1, name2 as n2\nimport a.b.c\nprint(sibling, P, name1, n2)\n",
+    "numeric_floats": "a = 0.0\nb = 1.0\nc = -0.0\nd = 2.0\ne = 1e0\nf = 255.0\nprint(a, b, c, d, e, f)\n",
+    "numeric_complex": "a = 0j\nb = 1j\nc = 1 + 0j\nd = 2j\ne = -0j\nprint(a, b, c, d, e)\n",
+    "numeric_ints_bools": "a = 0\nb = 1\nc = True\nd = False\ne = 2\nf = 255\ng = 0x0\nh = -1\nprint(a, b, c, d, e, f, g, h)\n",
+    "equal_constants_mixed": "xs = [0, 0.0, 0j, False, 1, 1.0, True, (1+0j), -1, -1.0, '', b'', None, ..., '0', b'0']\nprint(xs)\n",
     "global_decl": "g = 0\ndef f():\n    global g\n    g += 1\n    return g\nf()\nprint(g)\n",
     # --- classes -------------------------------------------------------------------
     "class_super": (
@@ -151,6 +155,8 @@ FAILING = {
     "fail_star2": "*a, *b = [1, 2]\n",
     "fail_with": "for i in range(3):\n    with open('x') as f:\n        pass\n",
     "fail_syntax": "def (:\n",
+    "fail_huge_int": "x = 1%s\nprint(x %% 7)\n" % ("0" * 4400),
+    "fail_huge_int_hex": "x = 0x1%s\nprint(x %% 7)\n" % ("0" * 4000),
     "fail_continue": "a = 1\nif a:\n    continue\n",
     "fail_mid_expression": "data = [(1, [2, 3])]\nx = sorted([h for h, *rest in data], key=len)\ny = 2\n",
     "fail_deep_loop": "def f():\n    for i in range(3):\n        while i:\n            class K:\n                [q for q in range(3)]\n                del i\n",
